@@ -36,7 +36,7 @@ VARIABLES ht,      \* handle -> table id (0: dead)
           ghb, gblk, hist, hz     \* the FiniteMap state run in lock-step (ghost) and the shared history
 vars == <<ht, tab, ghb, gblk, hist, hz>>
 
-FM == INSTANCE FiniteMap WITH hb <- ghb, blk <- gblk, KeepHist <- TRUE, SetMode <- FALSE
+FM == INSTANCE FiniteMap WITH hb <- ghb, blk <- gblk, KeepHist <- TRUE, MapOps <- TRUE, SetOps <- FALSE
 
 H    == 1..NH
 T    == 1..(NH+1)
@@ -157,10 +157,19 @@ Clone(h, g) == /\ FM!Clone(h, g)
                   /\ ht' = ht2
                   /\ tab' = GcT(ht2, [t1 EXCEPT ![nt] = DupT(TT(h))])
 
+\* a default-constructed table bound to g
+NewEmpty(g) == /\ FM!NewEmpty(g)
+               /\ LET t1 == IF ht[g] # 0 THEN Release(tab, ht[g]) ELSE tab
+                      ht1 == [ht EXCEPT ![g] = 0]
+                      nt == FreeTab(ht1)
+                      ht2 == [ht EXCEPT ![g] = nt] IN
+                  /\ ht' = ht2
+                  /\ tab' = GcT(ht2, [t1 EXCEPT ![nt] = NewTab(NB0)])
+
 Next == /\ Len(hist) < MaxOps
         /\ \/ \E h \in H, k \in K, v \in V : SetKV(h, k, v)
            \/ \E h \in H, k \in K : Index(h, k) \/ RemoveK(h, k)
-           \/ \E h \in H : Clear(h) \/ Dup(h) \/ DropHandle(h)
+           \/ \E h \in H : Clear(h) \/ Dup(h) \/ DropHandle(h) \/ NewEmpty(h)
            \/ \E h, g \in H : Clone(h, g) \/ CopyHandle(h, g) \/ AssignHandle(h, g)
 Spec == Init /\ [][Next]_vars
 
